@@ -347,6 +347,16 @@ fn precedence_job(seed: u64, j: usize, tier: Tier) -> Outcome {
 
 /// `start_tracer` is the real function of app.rs (through a hook); the tracer it returns must be
 /// configured with the resolved values.
+/// The trace identifier of the tracer the application starts at `index` in a process with `pid`.
+pub fn started_tracer_identifier(index: usize, pid: u16) -> Result<u16, String> {
+    let argv: Vec<String> = ["trip", "example.com"].iter().map(ToString::to_string).collect();
+    let case = Case { argv, toml: String::new(), states: BTreeMap::new() };
+    let cfg = build(&case)?.map_err(|e| format!("rejected: {e}"))?;
+    let target = std::net::IpAddr::V4(std::net::Ipv4Addr::new(10, 200, 0, 1 + index as u8));
+    let info = trippy_tui::verif::start_tracer(&cfg, "example.com", target, index, pid).map_err(|e| format!("start_tracer: {e}"))?;
+    Ok(info.data.trace_identifier().0)
+}
+
 /// The scheduling limits of the tracer the application starts for `trip example.com --first-ttl
 /// .. --max-ttl .. --max-inflight ..` (through the application's own `start_tracer`).
 pub fn started_tracer_limits(first: u8, max: u8, inflight: u8) -> Result<(u8, u8, u8), String> {
@@ -799,6 +809,28 @@ fn run_builder(b: Builder, v6: bool, network: u64, o: &mut Outcome, site: &str, 
     }
 }
 
+fn long_run_job(seed: u64, i: usize, cells: &[scen::Cell], tier: Tier) -> Outcome {
+    let mut o = Outcome::default();
+    let cell = cells[i % cells.len()];
+    let silent = i / cells.len() == 1;
+    let mut r = Prng::new(seed ^ (i as u64).wrapping_mul(0x9E37_79B9_7F4A_7C15) ^ 0x10_46);
+    let mut tcfg = cell.trace_cfg();
+    tcfg.max_rounds = Some(tier.pick(150, 600));
+    tcfg.min_round = Duration::from_millis(30);
+    tcfg.max_round = Duration::from_millis(30);
+    tcfg.grace = Duration::from_millis(1);
+    tcfg.read_timeout = Duration::from_millis(1);
+    tcfg.tcp_connect_timeout = Duration::from_millis(30);
+    tcfg.max_ttl = 30;
+    tcfg.initial_sequence = *r.pick(&[33434u16, 0, 20_000, 60_000]);
+    let site = format!("long-run/{}", cell.name());
+    let replay = json!({"how": format!("vcheck C16 --seed {seed}"), "scenario": format!("long{i}"), "config": format!("{tcfg:?}"), "network": if silent { "silent" } else { "friendly" }});
+    run_builder(tcfg.builder(), cell.v6, if silent { 1 } else { 4 }, &mut o, &site, &replay);
+    o.count("long_runs", 1);
+    o.nontrivial = Some(format!("{site}|{silent}"));
+    o
+}
+
 fn builder_alone_job(seed: u64, j: usize, tier: Tier) -> Outcome {
     let mut o = Outcome::default();
     let mut r = Prng::new(seed ^ (j as u64) << 11 ^ 0xB16);
@@ -826,6 +858,9 @@ fn builder_alone_job(seed: u64, j: usize, tier: Tier) -> Outcome {
     let seq = if boundary || r.chance(1, 2) { *r.pick(&[33434u16, 0, 64_511, 64_512, 65_535]) } else { r.below(65_536) as u16 };
     let size = if boundary || r.chance(1, 2) { *r.pick(&[84u16, 104, 0, 27, 28, 47, 48, 1024, 1025, 65_535]) } else { r.below(1100) as u16 };
     let target: IpAddr = if v6 { scen::target_v6().into() } else { scen::TARGET_V4.into() };
+    // (one job in six - every other Dublin / IPv6 job - runs long enough for the sequence numbers
+    // to go round: "can run" is not only about the first rounds)
+    let long = r.chance(1, 6) || (protocol == Protocol::Udp && strategy == MultipathStrategy::Dublin && v6 && r.chance(1, 2));
     let b = Builder::new(target)
         .protocol(protocol)
         .multipath_strategy(strategy)
@@ -840,7 +875,7 @@ fn builder_alone_job(seed: u64, j: usize, tier: Tier) -> Outcome {
         .payload_pattern(r.below(256) as u8)
         .tos(r.below(256) as u8)
         .trace_identifier(r.below(65_536) as u16)
-        .max_rounds(Some(3))
+        .max_rounds(Some(if long { 120 } else { 3 }))
         .min_round_duration(Duration::from_millis(*r.pick(&[0u64, 20, 50])))
         .max_round_duration(Duration::from_millis(*r.pick(&[20u64, 50, 10])))
         .grace_duration(Duration::from_millis(*r.pick(&[0u64, 5, 100])))
@@ -850,7 +885,9 @@ fn builder_alone_job(seed: u64, j: usize, tier: Tier) -> Outcome {
         .max_flows(*r.pick(&[0usize, 1, 64]));
     let site = format!("builder/{protocol}/{strategy}/{}", ["none", "fsrc", "fdst", "fboth"][ports_k]);
     let replay = json!({"how": format!("vcheck C16 --seed {seed} --only b{j}"), "scenario": format!("b{j}"), "builder": format!("{b:?}")});
-    let network = r.below(10);
+    // (long runs: half of them over a network where nothing answers, so that every round sends
+    // a whole window of probes)
+    let network = if long && r.chance(1, 2) { 1 } else { r.below(10) };
     run_builder(b, v6, network, &mut o, &site, &replay);
     o.observe("builder_categories", format!("{protocol}/{strategy}/{}/{}/{}", ["none", "fsrc", "fdst", "fboth"][ports_k], if unpriv { "unpriv" } else { "priv" }, if v6 { "v6" } else { "v4" }));
     o.nontrivial = Some(format!("{site}|{unpriv}|{v6}|{ext}|{first_ttl}|{max_ttl}|{inflight}|{seq}|{size}"));
@@ -937,7 +974,12 @@ pub fn run(tier: Tier, seed: u64, only: Option<String>) -> i32 {
             } else {
                 cli_then_builder_job(seed, i - n_opts - n_derived - n_builder, tier)
             }
-        })
+        });
+            // "can run" for longer than the first rounds: every accepted cell for 150 rounds
+            // (thorough: 600) over a friendly and over a silent network, so that the sequence
+            // numbers go round in both regimes
+            let cells = scen::all_cells(true);
+            rep.run_parallel(cells.len() * 2, |i| long_run_job(seed, i, &cells, tier));
         }
     }
     rep.finish()
